@@ -5,3 +5,4 @@ import Driver.Ops.Proxy
 import Driver.Ops.Envelope
 import Driver.Ops.Policy
 import Driver.Ops.Store
+import Driver.Ops.Attempt
